@@ -91,6 +91,7 @@ RULES = {
     "R38": _get(IR, "r38_matmul_shapes"),
     "R39": _get(IR, "r39_roll_adjoint_of_unroll"),
     "R40": _get(BR, "r40_broadcast"),
+    "R41": _get(IR, "r41_multi_index"),
 }
 
 # property -> rules (DESIGN.md section 4)
@@ -110,7 +111,7 @@ PROPERTY_RULES = {
     "C13": ["R21", "R22", "R28"],
     "C14": ["R21", "R28", "R22", "R20", "R24", "R23"],
     "C15": ["R34"],
-    "C16": ["R16", "R3", "R17"],
+    "C16": ["R16", "R3", "R17", "R41"],
     "C17": ["R13", "R14", "R26"],
     "C18": ["R20", "R21", "R7", "R8"],
     "C19": ["R19"],
@@ -200,7 +201,7 @@ EXPLANATION = {
            "Conv::forward = activation?(conv(x, filters, stride) + biases), Model::forward applies every layer once, first to last, each to "
            "the previous result, and Model::backward returns sum_all(cost(stored output, target)) (R34). Decides that the right function is "
            "applied to the right arguments in the right order; does NOT decide what matmul / conv compute (C05 / C06).",
-    "C16": "Clause-level static verdict: all refusal clauses via the constructor funnel and its dominating assertions plus no later "
+    "C16": "(R41: the multi-index -> flat index fold is the row-major position for every rank 1..4 and every pattern of unit dimensions, evaluated on symbolic lists in an exact algebra.) Clause-level static verdict: all refusal clauses via the constructor funnel and its dominating assertions plus no later "
            "write (R16,R3), and equality reads exactly dimensions and values as a conjunction (R17). Does NOT decide index arithmetic.",
     "C17": "Clause-level static verdict: linearity type system over every built-in backward closure and the engine's delta path "
            "(R13); default seed is ones of the root's shape (R14); no engine branch reads adjoint values (R26). Over the reals; user closures out of scope.",
